@@ -35,6 +35,19 @@ def search(tier='quick'):
                         break
                 if len(ds) != len(out):
                     bad('local shuffle n=%d' % n, 'len', len(ds), 'number yielded')
+                # the same two clauses for what copy() / copy(freeze=True) of the stage deliver (whether or not a frozen copy
+                # is a fixed order, it is a local shuffle: a permutation, nothing more than B-1 positions early)
+                for fz in (False, True):
+                    try:
+                        out2 = list(src.shuffle(True, buffer_size=B, rng=np.random.RandomState(seed)).copy(freeze=fz))
+                    except Exception as e:      # noqa
+                        bad('copy(freeze=%s) of local shuffle n=%d B=%d seed=%d' % (fz, n, B, seed), 'iterates', type(e).__name__, 'a permutation')
+                        continue
+                    if sorted(out2) != list(range(n)):
+                        bad('copy(freeze=%s) of local shuffle n=%d B=%d seed=%d' % (fz, n, B, seed), 'local-shuffle-multiset', out2, 'a permutation')
+                    elif any(pos < x - (B - 1) for pos, x in enumerate(out2)):
+                        bad('copy(freeze=%s) of local shuffle n=%d B=%d seed=%d' % (fz, n, B, seed), 'local-shuffle-displacement', out2,
+                            'no example more than %d positions early' % (B - 1))
             # iterators in flight over ONE local-shuffle object: every schedule of next() calls (exhaustive for short
             # runs, round robin / bursts otherwise); each iterator must still deliver a permutation
             if n and seed < 3:
